@@ -50,7 +50,7 @@ Pos == 1..N
 (* spatial orbitals with both spins                                        *)
 Model(seed) ==
   [noa |-> 2, nob |-> 2, nva |-> 2, nvb |-> 2, seed |-> seed,
-   restricted |-> FALSE, spincons |-> FALSE, fock |-> "gen", eri |-> "gen",
+   restricted |-> FALSE, spincons |-> FALSE, scn |-> <<>>, fock |-> "gen", eri |-> "gen",
    re |-> 0, rD |-> 0, rf |-> 0, rv |-> 0, rV |-> 0, rU |-> 0, umat |-> <<>>,
    bkn |-> <<0>>,
    tabs |-> << <<>> >>]
